@@ -113,8 +113,9 @@ ScrollDown(s) ==
       RECURSIVE Go(_, _)
       Go(t, y) == IF y <= a THEN t ELSE Go(WriteRow(t, y, c0, c1, LAMBDA x : GetCell(s, x, y - 1)), y - 1)
   IN IF c0 > c1 THEN s ELSE WriteRow(Go(s, b), a, c0, c1, LAMBDA x : Blank)
-RECURSIVE Times(_, _, _)
-Times(Op(_), s, n) == IF n <= 0 THEN s ELSE Times(Op, Op(s), n - 1)
+\* n-fold application, as a fold (evaluated iteratively by TLC's Java override of FoldLeft: a RECURSIVE definition builds n
+\* nested unevaluated applications and a stack n x 50 frames deep - REP 2000 in insert mode took 200 s instead of 5 s)
+Times(Op(_), s, n) == IF n <= 0 THEN s ELSE FoldLeft(LAMBDA acc, i : Op(acc), s, [i \in 1..n |-> i])
 
 \* scroll_left / scroll_right on the rows of the region that exist and are longer than the first column
 ScrollLeft(s) ==
@@ -185,15 +186,14 @@ Erase(s, n0) ==
            new == [i \in 1..Max2(Len(old), s.x + n) |-> IF i - 1 >= s.x /\ i - 1 < s.x + n THEN Cell(32, s.ca) ELSE IF i <= Len(old) THEN old[i] ELSE InvCell] \o <<>>
        IN [s EXCEPT !.rows[s.y + 1] = new]
 
-\* Buffer::print_char
-PrintCh(s, cell) ==
-  LET s1 == IF s.im
-            THEN LET r1 == AppendEmpty(s.rows, s.y + 1 - NL(s)) IN [s EXCEPT !.rows = [r1 EXCEPT ![s.y + 1] = LineInsert(@, s.x, Blank)]]
-            ELSE s
-      s2 == [s1 EXCEPT !.lh = Max2(s1.lh, s1.y + 1), !.bh = Max2(s1.bh, s1.y + 1)]
-      s3 == SetCell(s2, s2.x, s2.y, cell)
-      s4 == [s3 EXCEPT !.x = s3.x + 1]
-  IN IF s4.x >= s4.tw THEN (IF s4.aw THEN Lf(s4) ELSE [s4 EXCEPT !.x = s4.x - 1]) ELSE s4
+\* Buffer::print_char  (a chain of operators instead of LET definitions: TLC re-evaluates a LET body at every use, operator
+\* arguments are evaluated once - REP in insert mode took 0.1 s per character with the LET version)
+PrintCh4(s4) == IF s4.x >= s4.tw THEN (IF s4.aw THEN Lf(s4) ELSE [s4 EXCEPT !.x = s4.x - 1]) ELSE s4
+PrintCh3(s3) == PrintCh4([s3 EXCEPT !.x = s3.x + 1])
+PrintCh2(s2, cell) == PrintCh3(SetCell(s2, s2.x, s2.y, cell))
+PrintCh1(s1, cell) == PrintCh2([s1 EXCEPT !.lh = Max2(s1.lh, s1.y + 1), !.bh = Max2(s1.bh, s1.y + 1)], cell)
+PrintChIns(s, r1) == [s EXCEPT !.rows = [r1 EXCEPT ![s.y + 1] = LineInsert(@, s.x, Blank)]]
+PrintCh(s, cell) == PrintCh1(IF s.im THEN PrintChIns(s, AppendEmpty(s.rows, s.y + 1 - NL(s))) ELSE s, cell)
 
 \* ------------------------------------------------------------------ erase functions
 RECURSIVE FillRows(_, _, _, _, _, _)
